@@ -62,6 +62,11 @@ fn call_name(c: &Call) -> String {
 
 /// Plays a history on a fresh builder, checking every rule after every call.
 fn play(calls: &[Call], rng: &mut Rng, r: &mut Report, rp: &dyn Fn() -> Json, stage: &str) {
+    play_opts(calls, rng, r, rp, stage, false)
+}
+
+/// `pool_always`: every id argument is drawn from the ids earlier calls returned (def-use scenario).
+fn play_opts(calls: &[Call], rng: &mut Rng, r: &mut Report, rp: &dyn Fn() -> Json, stage: &str, pool_always: bool) {
     let sems = method_sems();
     let mut b = Builder::new();
     let mut marker = 5_000_000u32;
@@ -77,7 +82,7 @@ fn play(calls: &[Call], rng: &mut Rng, r: &mut Report, rp: &dyn Fn() -> Json, st
         let name = call_name(c);
         let mut trace = String::new();
         let mut ctx = ArgCtx::default();
-        if !returned.is_empty() && step % 2 == 1 {
+        if !returned.is_empty() && (step % 2 == 1 || pool_always) {
             ctx.small_pool = Some(returned.iter().rev().take(6).cloned().collect());
         }
         let mut got_word: Option<u32> = None;
@@ -344,6 +349,28 @@ pub fn run(cfg: &Cfg, rep: &mut Report) {
             r.sample(Json::obj().set("history", calls.iter().take(14).map(|c| Json::from(call_name(c))).collect::<Vec<_>>()));
         }
         play(&calls, rng, r, &|| crate::util::replay_ref(cfg, "random", idx), "r");
+    });
+    // def-use scenario: extended-instruction imports (recognised, non-semantic, arbitrary names) followed
+    // by ext_inst calls that name those imports, in every selection state
+    let imp = by_name("ext_inst_import");
+    let ext = by_name("ext_inst");
+    let ret = by_name("ret");
+    run_stage(cfg, rep, "ext-inst-scenario", cfg.n(6_000, 400_000), |idx, rng, r| {
+        let mut calls = vec![];
+        for _ in 0..rng.range(1, 4) {
+            calls.push(Call::Stub(imp));
+        }
+        for _ in 0..rng.range(2, 12) {
+            calls.push(match rng.below(10) {
+                0 => Call::BeginFunction,
+                1 => Call::BeginBlock,
+                2 => Call::Stub(ret),
+                3 => Call::EndFunction,
+                4 => Call::Stub(imp),
+                _ => Call::Stub(ext),
+            });
+        }
+        play_opts(&calls, rng, r, &|| crate::util::replay_ref(cfg, "ext-inst-scenario", idx), "e", true);
     });
     rep.extra.push(("x_exhaustive_histories".into(), Json::obj().set("alphabet", alphabet.len()).set("max_length", maxlen).set("histories", total)));
 }
